@@ -128,4 +128,6 @@ def run(ck):
     if t2_mm and not found:
         ck.report("corr:T2-body", "the model of the code generator no longer matches the real expansion (%d inputs differ)" % len(t2_mm),
                   dict(broken="correspondence T2 (expansion tokens)", theorems=["C07_binders_reserved"], first=t2_mm[:3]), no_input=True)
+    import parsetie
+    parsetie.light_tie(ck, "C07: the compiled programs' expectations read patterns with the model parser")
     ck.assumptions += ["proc-macro hygiene is modelled as call-site for every identifier the expansion creates (quote! semantics); rustc's name resolution is the oracle in the twin programs"]
